@@ -327,6 +327,19 @@ def run_check(pid, tier, seed, replay=None):
         ctx.build_ok = False
         ctx.build_log += '\nHYGIENE: ' + '; '.join(bad[:10])
 
+    # 1b. thorough tier: independent re-check of the compiled proofs with coqchk
+    if tier == 'thorough' and ctx.build_ok:
+        mods = ' '.join('PyRTL.' + pf[len('theories/'):-2].replace('/', '.') for pf in props_files)
+        with Lock(os.path.join(WORK, '.buildlock')):
+            crc, cout, cerr = sh('timeout 2400 coqchk -silent -o -Q theories PyRTL %s' % mods, cwd=COQ,
+                                 timeout=2500)
+        summ = (cout + cerr)
+        k = summ.find('CONTEXT SUMMARY')
+        ctx.extra_cov['coqchk'] = {'exit': crc, 'summary': summ[k:k + 1500] if k >= 0 else summ[-1500:]}
+        if crc != 0:
+            ctx.build_ok = False
+            ctx.build_log += '\ncoqchk failed: ' + summ[-1500:]
+
     # 2. correspondence + search
     run_error = None
     try:
